@@ -867,13 +867,14 @@ func sorted(s *scope, args []pyObject) pyObject {
 		order = GreaterThan
 	}
 	l = slices.Clone(l) // sorted() returns a copy; the argument must not be reordered
+	// The sort is stable, i.e. items that compare equal (e.g. by key) keep their original order.
 	if key == nil {
-		sort.Slice(l, func(i, j int) bool {
+		sort.SliceStable(l, func(i, j int) bool {
 			return s.operator(order, l[i], l[j]).IsTruthy()
 		})
 	} else {
 		s.Assert(isFunc, "Argument key must be callable, not %s", args[1].Type())
-		sort.Slice(l, func(i, j int) bool {
+		sort.SliceStable(l, func(i, j int) bool {
 			iKey := key.Call(s, &Call{
 				Arguments: []CallArgument{{
 					Value: Expression{optimised: &optimisedExpression{Constant: l[i]}},
